@@ -172,6 +172,9 @@ def minList (m : α) : List α → α
   | [] => m
   | d :: ds => if d < m then minList d ds else minList m ds
 
+/-- the matrix the summaries work on: `_taxon_phylogenetic_distances` (`weighted`) or `_taxon_phylogenetic_path_steps` -/
+def selVal (weighted : Bool) (e : Entry κ α) : α := if weighted then e.d else ((e.steps : Nat) : α)
+
 /-- `dmatrix[a][b]` as the summaries read it from the compiled table (`val` picks the weighted or the edge-count value).
 A missing cell is a `KeyError` in the library; under `Good` it cannot happen (`pdm_lookup_spec`), the model reads 0. -/
 def cellOf [DecidableEq κ] (val : Entry κ α → α) (tbl : List (Entry κ α)) (a b : κ) : α :=
@@ -219,14 +222,22 @@ def scanL (m : Nat → Nat) (target : Nat) (last : T) : List T → T
     | none => scanL m target last rest
 end
 
+/-- the kept basal edge absorbs the dissolved one (repaired `collapse_basal_bifurcation`: a missing length is absent,
+`None + x = x`, `x + None = x`, `None + None = None`) -/
+def absorbLen (keep del : T) : T :=
+  match del.len with
+  | none => keep
+  | some b => match keep.len with
+    | none => keep.withLen (some b)
+    | some a => keep.withLen (some (a + b))
+
 /-- `Tree.collapse_basal_bifurcation` as `encode_bipartitions` calls it on an unrooted tree whose seed
 has two children: the second child is dissolved if it has ≥ 2 children, else the first if it has; the
-children of the dissolved node take its place.  (Edge lengths are not touched here: the most-recent-common-
-ancestor clause does not mention them and the driver prints the structure only.) -/
+children of the dissolved node take its place and the kept child's edge absorbs the dissolved edge's length. -/
 def collapseBasal : T → T
   | .node i x l s [c0, c1] =>
-    if c1.cs.length ≥ 2 then .node i x l s (c0 :: c1.cs)
-    else if c0.cs.length ≥ 2 then .node i x l s (c0.cs ++ [c1])
+    if c1.cs.length ≥ 2 then .node i x l s (absorbLen c0 c1 :: c1.cs)
+    else if c0.cs.length ≥ 2 then .node i x l s (c0.cs ++ [absorbLen c1 c0])
     else .node i x l s [c0, c1]
   | t => t
 
@@ -253,5 +264,49 @@ def treeMrca (rooted refresh : Bool) (stored : Nat → Nat) (target startId : Na
 
 /-- the defining notion: pre-order list of the nodes below (and including) `t` whose leaves include `target` -/
 def covering (target : Nat) (t : T) : List T := t.nodes.filter fun u => u.mask &&& target = target
+
+
+/-! ## `treemeasure.patristic_distance` -/
+mutual
+/-- the nodes strictly below `r` on the way down to the first node (pre-order) that carries taxon `a`, top first; `some []`
+if `r` itself carries it.  This is the chain `n, n.parent_node, …` the library climbs from `tree.find_node(taxon == a)` up
+to the common ancestor (with every taxon on one node the node found in the whole tree is the one found below `r`, or
+there is none below `r` and the climb runs off the root: `AttributeError`). -/
+def pathToTaxon (a : Nat) : T → Option (List T)
+  | .node _ x _ _ cs => if x = some a then some [] else pathToTaxonL a cs
+def pathToTaxonL (a : Nat) : List T → Option (List T)
+  | [] => none
+  | c :: cs =>
+    match pathToTaxon a c with
+    | some p => some (c :: p)
+    | none => pathToTaxonL a cs
+end
+
+/-- `while n != mrca: dist += n.edge.length (None skipped); n = n.parent_node` over a chain given top first -/
+def climbAcc {α : Type} [Add α] (ℓ : T → α) (acc : α) (p : List T) : α := p.reverse.foldl (fun d u => d + ℓ u) acc
+
+inductive TmResult (α : Type) where
+  | valueError
+  | attributeError
+  | ok (d : α)
+
+/-- `treemeasure.patristic_distance(tree, taxon a, taxon b, is_bipartitions_updated = ¬refresh)`: `Tree.mrca` of the two
+taxa from the seed, then the two climbs, one running sum -/
+def treePatristic {α : Type} [Zero α] [Add α] (ℓ : T → α) (rooted refresh : Bool) (stored : Nat → Nat) (a b : Nat) (t : T) :
+    TmResult α :=
+  match treeMrca rooted refresh stored (1 <<< a ||| 1 <<< b) t.id t with
+  | .valueError => .valueError
+  | .startGone => .attributeError
+  | .found t' none =>
+    -- `mrca` is `None` (a taxon is not below the seed as encoded): `while n != None` climbs from each taxon's node, if it has
+    -- one, through the seed (the seed's own edge included) and stops when `n.parent_node` is `None`
+    let up := fun (acc : α) (x : Nat) => match pathToTaxon x t' with
+      | some p => climbAcc ℓ acc (t' :: p)
+      | none => acc
+    .ok (up (up 0 a) b)
+  | .found _ (some r) =>
+    match pathToTaxon a r, pathToTaxon b r with
+    | some pa, some pb => .ok (climbAcc ℓ (climbAcc ℓ 0 pa) pb)
+    | _, _ => .attributeError
 
 end DendroModel.C14
